@@ -241,6 +241,9 @@ def d2(cx: Cx, ob: Ob) -> None:
         recs_loop = ctx.loops[0] if ctx.loops else None
         if ev.kind == "store" and op(ev.a) == "item" and op(ev.a[1]) == "new":
             writes.append((ev.a[2], ev.b, recs_loop, ev, ctx))
+        elif ev.kind == "expr" and op(ev.a) == "call" and callee_name(ev.a) == "setdefault" and op(ev.a[1]) == "attr" and op(ev.a[1][1]) == "new" and len(ev.a[2]) == 2:
+            # context.setdefault(key, value): an entry like any other (written unless the key is already there)
+            writes.append((ev.a[2][0], ev.a[2][1], recs_loop, ev, ctx))
         elif ev.kind == "expr" and op(ev.a) == "call" and callee_name(ev.a) == "update" and op(ev.a[1]) == "attr" and op(ev.a[1][1]) == "new" and ev.a[2]:
             arg = ev.a[2][0]
             if op(arg) == "call" and arg[1] == ("attr", ("builtin", "dict"), "fromkeys") and len(arg[2]) == 2:
@@ -874,6 +877,9 @@ def d7(cx: Cx, ob: Ob) -> None:
     from ..rules import open_args_agreement
 
     open_args_agreement(cx, ob, [f"{API}.write_extended_prefix_map", f"{API}.write_jsonld_context"], [f"{API}._prepare"], "JSON round trip")
+    from ..rules import writers_encode_faithfully
+
+    writers_encode_faithfully(cx, ob, [f"{API}.write_extended_prefix_map", f"{API}.write_jsonld_context", f"{API}.write_shacl", f"{API}.write_tsv"])
 
 
 @obligation("C14-X8", "the Record model stores prefixes and URI prefixes verbatim: no pydantic string transformation (strip / case folding / length limits) in its model_config or field declarations", floor=1)
@@ -991,3 +997,10 @@ def x4(cx: Cx, ob: Ob) -> None:
 
     c04_order(cx, ob)
     c04_matrix(cx, ob)
+
+
+@obligation("C14-X10", "what is read back is kept: Converter.__init__ reads its (Iterable, possibly one-shot) `records` argument only through one materialising call (sorted/list) and keeps that fresh list whole - never the caller's list object, never sorted in place, no record left out under a test", floor=2)
+def x10(cx: Cx, ob: Ob) -> None:
+    from ..rules import constructor_owns_records
+
+    constructor_owns_records(cx, ob)
